@@ -107,9 +107,13 @@ def judge_file(sc, kappa, lines, res, text, part):
     return True
 
 
-def gen_scenario(rng, ctype, r, c, F):
+def gen_scenario(rng, ctype, r, c, F, sparse=0):
     for attempt in range(6):
         sc = calgen.Scenario(ctype, r, c, F, rng)
+        sc.pre_sparse = sparse
+        # a third of the scenarios give some standards as vector parameters
+        # on their own frequency grid (rational law in frequency)
+        sc.offgrid = rng.random() < 0.33
         sc.sufficient_recipe(extras=int(rng.integers(0, 4)))
         sc.choose_entries()
         ok, kappa = sc.well_determined(KAPPA_MAX)
@@ -178,7 +182,10 @@ def judge(sc, kappa, lines, res, text, part, cell):
             bad("apply-frequency", "frequency %d is %r, expected %r" % (
                 f, out["freq"][f], sc.freqs[f]))
             return True
-    rel = worst / (TOL * (1 + kappa))
+    # off-grid vector standards add the interpolation error of the rational
+    # law (about 2e-11 on the stock library) on top of rounding
+    tol = TOL * (100.0 if getattr(sc, "offgrid", False) else 1.0)
+    rel = worst / (tol * (1 + kappa))
     part["maxima"]["max_err_over_tol"] = max(
         part["maxima"].get("max_err_over_tol", 0.0), rel)
     part["maxima"]["max_abs_err"] = max(
@@ -186,7 +193,7 @@ def judge(sc, kappa, lines, res, text, part, cell):
     if not (rel <= 1.0):
         bad("wrong-s-parameters", "corrected S differs from the device by "
             "%.3g (kappa %.3g, tolerance %.3g); entries used: %s" % (
-                worst, kappa, TOL * (1 + kappa),
+                worst, kappa, tol * (1 + kappa),
                 sorted({s.entry for s in sc.stds})))
     return True
 
@@ -205,13 +212,22 @@ def work(chunk_id, payload):
         wts = np.array([1.0 / (max(r, c) ** 2) for r, c in shapes])
         r, c = shapes[int(rng.choice(len(shapes), p=wts / wts.sum()))]
         filecheck = False
-        if termfile.available() and rng.random() < 0.2:
+        sparse = 0
+        if k % 8 == 7:
+            # focus: multi-port standards whose ports are connected only
+            # transitively, on the types that keep leakage terms outside the
+            # linear system (a wrong connectivity grouping turns signal into
+            # "leakage" there)
+            ctype = physics.LEAKAGE_OUTSIDE[int(rng.integers(0, 4))]
+            r = c = int(rng.choice([3, 4, 4]))
+            sparse = 3
+        elif termfile.available() and rng.random() < 0.2:
             r, c = RECT[ctype in physics.T_TYPES][int(rng.integers(0, 5))]
             filecheck = True
         F = int(rng.choice([1, 1, 2, 3, 5, 7]))
         if max(r, c) >= 4:
             F = min(F, 2)
-        sc, kappa, att = gen_scenario(rng, ctype, r, c, F)
+        sc, kappa, att = gen_scenario(rng, ctype, r, c, F, sparse)
         if sc is None:
             cnt["skipped_not_well_determined"] = cnt.get(
                 "skipped_not_well_determined", 0) + 1
